@@ -116,8 +116,9 @@ def check_key_helper(
 
     if len(key) > 250:
         raise MemcacheIllegalInputError("Key is too long: %r" % key)
-    # second statement catches leading or trailing whitespace
-    elif len(parts) > 1 or (parts and parts[0] != key):
+    # a non-empty key must survive split() unchanged: this also catches leading
+    # or trailing whitespace and keys made only of whitespace
+    elif key and parts != [key]:
         raise MemcacheIllegalInputError("Key contains whitespace: %r" % key)
     elif b"\00" in key:
         raise MemcacheIllegalInputError("Key contains null: %r" % key)
